@@ -235,6 +235,10 @@ impl Debug for CpuMask {
     }
 }
 
+// Verification hook (H3): harness code lives outside the repository (model checker / native replay only).
+#[cfg(any(kani, folo_verif))]
+include!(concat!(env!("FOLO_VERIF_DIR"), "/kani/many_cpus_impl/cpu_mask_hooks.rs"));
+
 #[cfg(test)]
 #[cfg_attr(coverage_nightly, coverage(off))]
 mod tests {
